@@ -20,6 +20,14 @@ def haar(rng):
     return q
 
 
+def small_rot(rng):
+    """rotation by a tiny angle 10^U(-9,-3) about a random axis (near-identity stream)"""
+    from scipy.spatial.transform import Rotation
+    ax = rng.normal(size=3)
+    ax /= np.linalg.norm(ax)
+    return Rotation.from_rotvec(ax * 10 ** rng.uniform(-9, -3)).as_matrix()
+
+
 def sym6(rng, scale=100.0, zeros=0.0):
     a = rng.normal(size=(6, 6)) * scale
     m = (a + a.T) / 2
@@ -113,7 +121,8 @@ def entries(T):
 
     def g_rot(rng):
         t = g_t4(rng)["args"][0]
-        r = haar(rng) if rng.random() < 0.7 else rng.normal(size=(3, 3))
+        u = rng.random()
+        r = haar(rng) if u < 0.6 else (small_rot(rng) if u < 0.8 else rng.normal(size=(3, 3)))
         return dict(x=flat(t, r), args=(t, r))
 
     def g_up(n):
